@@ -14,6 +14,11 @@ CHECKS = {
   text="Per-program differential validation: for generated architectures (Rsize 8..64, R=1..3, N/M/L/O, WordSize overrides, opcode subsets of the co-implemented table, OnlyDestRegs with requirements derived from the program) and generated programs with in-range operands and per-retire input vectors, the text returned by Arch/Conproc/Rom/Ram.Write_verilog is executed clock by clock by /verif's Verilog interpreter and compared with procbuilder.VM after every retired instruction (pc, all registers, output registers); the optimised HDL must agree as well. Found the single-operand shift defect of the simulator (fixed) and D12 (recorded).",
   note="Trusted: /verif's Verilog interpreter (assumptions A1 power-up zero, A2 delays ignored), the co-implemented table (harness/c01/table.go), the retire-point definition. Opcodes outside the table are not compared.",
   technique="differential property-based testing (rapid): emitted HDL under an interpreter vs the ISA simulator, lock-step at retire points; metamorphic check optimised vs unoptimised HDL"),
+ "C02": dict(
+  category="translation_validation",
+  text="Per-machine differential validation: generated multi-processor machines (built through the public editing API; i2rw/r2owa IO, fan-out, mixed external/internal sources) are rendered by the real Bondmachine.Write_verilog into a scratch directory, the file set is executed by /verif's Verilog interpreter under a protocol-abiding environment (generated input streams, gaps, output stalls) and the value sequences accepted on every external output are compared prefix-wise with bondmachine.VM under the same environment; the AST of the top module is checked to connect exactly the bonds (data, valid) and each received line must be the conjunction of exactly its sinks' received lines. Runs that enter the region of a recorded handshake finding are counted as excluded.",
+  note="Trusted: /verif's Verilog interpreter, the environment model shared by both runners, the monitors classifying D4/D5/D12. Horizons differ, so streams are compared up to the shorter one.",
+  technique="differential property-based testing (rapid) of emitted top-level HDL vs simulation on output streams + structural netlist oracle on the parsed AST"),
  "C03": dict(
   text="Property-based testing of the instruction encoder over every statically registered opcode and one instance of every dynamic family: generated architectures (R=1, single-bit port fields, WordSize overrides, all modes) and operand tuples in and out of range; oracle: error, or a word of exactly Max_word bits over {0,1} whose disassembly equals the line by value, re-assembly of the disassembly gives the word back, and out-of-range operands are rejected. Plus generated/mutated raw lines and a native fuzz target (thorough). Found D1 and the tsp defects (fixed in /repo); one open finding (64-bit immediates disassemble negative).",
   note="Trusted: the per-opcode operand-kind table in harness/c03/operand_kinds.go (read from each opcode's Assembler), numeric comparison of operands. Shared-object opcodes are covered with generated Shared_constraints.",
@@ -45,7 +50,6 @@ CHECKS = {
 }
 
 PENDING = {
- "C02": "check under construction (planned: stream-equality differential + netlist check, DESIGN.md §3 C02)",
  "C05": "check under construction (planned: reference interpreter of BASM source vs simulation)",
  "C06": "check under construction (planned: dataflow evaluator vs every partition)",
  "C07": "check under construction (planned: repeated-run byte equality)",
